@@ -1,10 +1,11 @@
 import GoRes.Driver.Wire
 import GoRes.Driver.Pat
+import GoRes.Driver.Mux
 /-! `gores-driver <domain>`: one op line in, one line `model<TAB>spec<TAB>tag` out. -/
 open GoRes GoRes.Wire
 
 structure DState where
-  dummy : Unit := ()
+  mux : GoRes.Driver.Mux.St := {}
 
 def stepLine (dom : String) (st : DState) (line : String) : DState × String :=
   let fields := splitFields line
@@ -13,6 +14,9 @@ def stepLine (dom : String) (st : DState) (line : String) : DState × String :=
   | some args =>
     match dom with
     | "pat" => let (m, s, t) := GoRes.Driver.Pat.run args; (st, m ++ "\t" ++ s ++ "\t" ++ t)
+    | "mux" =>
+      let (ms, m, s, t) := GoRes.Driver.Mux.run st.mux args
+      ({ st with mux := ms }, m ++ "\t" ++ s ++ "\t" ++ t)
     | _ => (st, "bad-domain\t-\tbad")
 
 partial def loop (dom : String) (h : IO.FS.Stream) (out : IO.FS.Stream) (st : DState) : IO Unit := do
